@@ -28,6 +28,7 @@ LEVEL_TEXT = (
     ' (R2f) no identity / == / membership comparison of stored repository objects whose class defines no __eq__ in classes reachable from the pickled scheduler (a restored copy is never `is` the original).'
     ' (R2g) Calibrator.__init__ changes no state of the scheduler / samplers / loss it receives (the restore passes the restored objects through it); the text path of C04-R3 is included (nothing is dropped or repaired when the history is read back).'
     " Value memos are exempt only when the key is injective in what it is made of and no reader writes into an entry; a cached function is exempt only when every receiver of the cached object merely reads it."
+    " The field-plumbing rule of C04 kept to the history and the two counters is included. A __getstate__ that only leaves named attributes out is read: each must be scratch, i.e. written before it is read on every path from sample()/sample_batch() (interprocedural must/may-written dataflow; a write that only some paths make is undecided)."
 )
 TECHNIQUE = "effect analysis (module/class/attribute writes), loop-carried-local detection on the CFG, view-aliasing of attributes, plumbing composition"
 
